@@ -364,7 +364,7 @@ def c03(ctx):
 # ------------------------------------------------------------------------------------------------ C04
 
 def len_items(ctx, langs):
-    pool = wire_pool(ctx, prefixes=['Ml', 'Mc'], nrand=40)
+    pool = wire_pool(ctx, prefixes=['Ml', 'Mc', 'Mr'], nrand=40)
     pool = [p for p in pool if 'k:len' in features(p)]
     return make(ctx, pool, langs)
 
@@ -539,7 +539,7 @@ def c05(ctx):
                        'several keys -> one packet, match in a nested packet, two match fields; every key of every table is sent once; oracle: dynamic type of the decoded payload == table(key) in every language; '
                        'for >= 3 keys outside the table decode must report failure (error / None / exception) - a value, a skipped payload, a panic or a dead process is a violation. '
                        'distinct = (protocol, language, key)')
-    pool = wire_pool(ctx, prefixes=['Mm', 'Ml', 'Mq'], nrand=40)
+    pool = wire_pool(ctx, prefixes=['Mm', 'Ml', 'Mq', 'Mr'], nrand=40)
     pool = [p for p in pool if 'root-match' in features(p) or 'sub-match' in features(p)]
     items = make(ctx, pool, LANGS5)
     for lang in LANGS5:
@@ -660,7 +660,7 @@ def c06(ctx):
                        'or not registered x position (last, middle, inside a nested packet, after a back-patched length); the checksum stand-in records the exact bytes it is handed. oracle: those bytes == '
                        'reference prefix of the message; field bytes == algo(prefix) in declared width/order; unregistered -> caller value unchanged; decoders read the wire value back. '
                        'distinct = (protocol, language, message)')
-    pool = wire_pool(ctx, prefixes=['Mc'], nrand=60)
+    pool = wire_pool(ctx, prefixes=['Mc', 'Mr'], nrand=60)
     pool = [p for p in pool if 'k:cksum' in features(p)]
     items = make(ctx, pool, LANGS5)
     for lang in LANGS5:
